@@ -3,5 +3,5 @@
 P=$1; shift; ID=$1; shift
 if [ -n "$(git -C /repo status --porcelain)" ]; then echo "refusing: /repo has uncommitted changes"; exit 3; fi
 git -C /repo apply "$P" || { echo "patch does not apply"; exit 3; }
-cd /verif && ./vcheck prop $ID "$@" 2>&1 | grep -E "VIOLATION|UNDECIDED|KNOWN|obligations," ; 
+cd /verif && VERIF_OUT=/tmp/gvc-try-out ./vcheck prop $ID "$@" 2>&1 | grep -E "VIOLATION|UNDECIDED|KNOWN|obligations," ; 
 git -C /repo checkout -- . 
